@@ -2,6 +2,7 @@ package harness
 
 import (
 	"testing"
+	"time"
 
 	"pgregory.net/rapid"
 )
@@ -96,9 +97,7 @@ func (g batchGen) gen(rt *rapid.T) BatchSc {
 		}
 	}
 	if g.LiveDeadline && b.WaitMs > 0 && rapid.Bool().Draw(rt, "livedl") {
-		// somewhere between one wait and the longest conceivable run
-		hi := b.WaitMs*b.budget()*(b.n()+1) + 100
-		b.DeadlineMs = rapid.IntRange(b.WaitMs+1, hi).Draw(rt, "deadline")
+		b.LiveSlackMs = rapid.IntRange(1, b.WaitMs).Draw(rt, "slack")
 	}
 	if g.Rerun && uniform(rt, 3, "rerun") == 0 {
 		g2 := g
@@ -118,7 +117,18 @@ func (g batchGen) gen(rt *rapid.T) BatchSc {
 // runBatchCase executes one batch scenario inside a bubble.
 func runBatchCase(t *testing.T, sc *BatchSc, qp func(x *batchExec) string) (x *batchExec, br batchRun, fail string) {
 	fail = Bubble(t, func() {
-		x = newBatchExec(sc)
+		if sc.LiveSlackMs > 0 && sc.DeadlineMs == 0 {
+			// reference run without any deadline -> natural duration of this scenario
+			plain := *sc
+			plain.LiveSlackMs = 0
+			ref := newBatchExec(&plain)
+			r0 := ref.run()
+			live := *sc
+			live.DeadlineMs = int(r0.Finished/time.Millisecond) + 1 + sc.LiveSlackMs
+			x = newBatchExec(&live)
+		} else {
+			x = newBatchExec(sc)
+		}
 		x.qp = qp
 		br = x.run()
 	})
